@@ -26,7 +26,7 @@ func init() {
 		Plan: func(tier string) []BuildPlan {
 			n := len(invalidClasses) * len(c13Positions) * 2
 			if tier == "thorough" {
-				return []BuildPlan{{"plain", n*8 + len(c13Subs)}, {"checkptr", n*2 + len(c13Subs)}}
+				return []BuildPlan{{"plain", n*40 + len(c13Subs)}, {"checkptr", n*10 + len(c13Subs)}, {"asan", n + len(c13Subs)}}
 			}
 			return []BuildPlan{{"plain", n + len(c13Subs)}, {"checkptr", n/2 + len(c13Subs)}}
 		},
